@@ -292,6 +292,7 @@ def _hook_tail(chk, ix, R, terms):
     run_order_discipline(chk, ix, R)
     run_field_coverage(chk, ix, R, terms)
     run_fixup(chk, ix)
+    run_typeinfo_fixup_fields(chk, ix)
     run_special_alias_rebuild(chk, ix)
     run_json_representable(chk, ix)
     run_definition_after_load(chk, ix)
@@ -994,3 +995,41 @@ def run_definition_after_load(chk: Check, ix) -> None:
         r16.ok(key, getter.loc(clears[0]), "none on a fresh analysis; the loader clears what fix-up set for plugin_generated symbols")
     else:
         r16.violation(key, f0.loc(t0), f"the synthesised FuncDef's type has no definition until the module is reloaded from the cache, where fix-up sets it (and nothing clears it for plugin_generated symbols): diagnostics about calls of the generated method differ between cold and warm runs")
+
+
+def run_typeinfo_fixup_fields(chk: Check, ix) -> None:
+    """R11.17: every type TypeInfo's loaders re-create is handed to the type fixer."""
+    r = chk.rule("R11.17", "every attribute that TypeInfo.deserialize / TypeInfo.read assign from a deserialized type (bases, _promote, alt_promote, declared_metaclass, metaclass_type, tuple_type, typeddict_type, self_type, ...) is run through the TypeFixer by NodeFixer.visit_type_info (`info.<attr>...accept(self.type_fixer)`, directly or element-wise): the loaders leave Instance.type unresolved (NOT_READY / by name), and a type nobody fixes up compares unequal to its freshly analysed twin (TypeVarType equality includes the upper bound) or raises when touched", floor=7)
+    ti = ix.cls("mypy.nodes.TypeInfo")
+    fields: dict[str, str] = {}
+    for mname in ("deserialize", "read"):
+        m = ti.methods.get(mname)
+        if m is None:
+            raise AnalysisError(f"TypeInfo.{mname} not found")
+        for a in ast.walk(m.node):
+            if isinstance(a, (ast.Assign, ast.AnnAssign)) and a.value is not None:
+                tg = a.targets[0] if isinstance(a, ast.Assign) else a.target
+                if isinstance(tg, ast.Attribute) and isinstance(tg.value, ast.Name) and tg.value.id not in ("self", "cls"):
+                    v = norm(a.value)
+                    if any(k in v for k in ("deserialize_type", "read_type", "mypy.types.")):
+                        fields.setdefault(tg.attr, f"{mname}: {v[:50]}")
+    if len(fields) < 7:
+        raise AnalysisError(f"TypeInfo loaders: only {sorted(fields)} type-valued attributes found")
+    vti = ix.cls("mypy.fixup.NodeFixer").lookup_method("visit_type_info")
+    fixed = set()
+    for c in ast.walk(vti.node):
+        if isinstance(c, ast.Call) and isinstance(c.func, ast.Attribute) and c.func.attr == "accept" and c.args and norm(c.args[0]) == "self.type_fixer":
+            recv = c.func.value
+            if isinstance(recv, ast.Attribute) and norm(recv.value) == "info":
+                fixed.add(recv.attr)
+            elif isinstance(recv, ast.Name):
+                # loop variable: `for base in info.bases: base.accept(...)`
+                for lp in ast.walk(vti.node):
+                    if isinstance(lp, ast.For) and isinstance(lp.target, ast.Name) and lp.target.id == recv.id and isinstance(lp.iter, ast.Attribute) and norm(lp.iter.value) == "info":
+                        fixed.add(lp.iter.attr)
+    for fld, how in sorted(fields.items()):
+        key = f"NodeFixer.visit_type_info fixes up TypeInfo.{fld}"
+        if fld in fixed:
+            r.ok(key, vti.loc(), how)
+        else:
+            r.violation(key, vti.loc(), f"TypeInfo.{fld} is re-created by the loader ({how}) but never handed to self.type_fixer: the Instances inside keep an unresolved TypeInfo after a cache load (e.g. the upper bound of the implicit Self type variable: the reloaded self_type no longer equals the Self variables in the member types, and `Access to generic instance variables via class is ambiguous` is reported cold but not warm)")
